@@ -192,6 +192,17 @@ def run(ctx):
     want = ["Ne(len(new()),1)", "Ne(len(new()),2)", "Ne(len(new()),2)"]
     alt = [w.replace("Ne(", "Eq(") for w in want]
     ctx.ob("A-ARITY", "parse_compound pops under exact length tests (1, 2, 2)", arity == want or arity == alt, "pops guarded by %s" % arity)
+    # an image loses its placeholder after the emptiness test: non-emptiness must be re-established afterwards
+    img = g.calls("parse_terms_with_image")
+    exts = [(bi, t) for bi, t in g.calls("extend") if img and g.dominates(img[0][0], bi)]
+    ok = bool(img) and bool(exts)
+    why = "no extend of the image vector after parse_terms_with_image"
+    for bi, t in exts:
+        late = [e for (e, v, d, s_, discr) in sym._guards_full(bi) if e.startswith("is_empty(") and v == "false" and g.dominates(img[0][0], d)]
+        if not late:
+            ok = False
+            why = "the placeholder is removed from `terms` after the emptiness test and nothing re-checks it: an image written with only its placeholder is returned with no components"
+    ctx.ob("A-ARITY", "parse_compound image: non-empty after the placeholder is removed", ok, why, "%s:%s" % (pc["span"]["file"], img[0][1]["line"] if img else pc["span"]["line"]))
     pts = f.mir_fn("parse_term_set", module="impl_enum::parser")
     g = mir.cfg(pts)
     sym = G.Sym(pts)
